@@ -1,11 +1,38 @@
 /* C09 correspondence harness: esl_random.c, esl_rand64.c */
 #include "hcommon.h"
+#include <time.h>
+#include <unistd.h>
+#include <sys/syscall.h>
 #include "esl_random.h"
 #include "esl_rand64.h"
 extern int64_t esl_rand64_int64(ESL_RAND64 *rng);   /* defined in esl_rand64.c but missing from esl_rand64.h */
 
+/* choose_arbitrary_seed() reads time(), getpid(), clock(): the harness owns these three symbols so that an `env t= p= c=`
+ * op makes them inputs of the case (the model computes the selected seed from the same three words). Without `env`
+ * they answer from the kernel as usual. */
+static int fake_env; static uint32_t fake_t, fake_p, fake_c;
+time_t time(time_t *t) {
+  time_t v; struct timespec ts;
+  if (fake_env) v = (time_t) fake_t; else { clock_gettime(CLOCK_REALTIME, &ts); v = ts.tv_sec; }
+  if (t) *t = v;
+  return v;
+}
+pid_t getpid(void) { return fake_env ? (pid_t) fake_p : (pid_t) syscall(SYS_getpid); }
+clock_t clock(void) {
+  struct timespec ts;
+  if (fake_env) return (clock_t) fake_c;
+  clock_gettime(CLOCK_PROCESS_CPUTIME_ID, &ts);
+  return (clock_t) (ts.tv_sec * CLOCKS_PER_SEC + ts.tv_nsec / (1000000000 / CLOCKS_PER_SEC));
+}
+
 static ESL_RANDOMNESS *R; static ESL_RAND64 *R64;
-static void h_case_begin(void) { }
+static void h_case_begin(void) { fake_env = 0; }
+/* FNV-1a over the bytes a Dump function wrote */
+static void out_dump(char *buf, size_t len) {
+  uint64_t h = 0xcbf29ce484222325ULL; size_t i, nl = 0;
+  for (i = 0; i < len; i++) { h = (h ^ (unsigned char) buf[i]) * 0x100000001b3ULL; if (buf[i] == '\n') nl++; }
+  h_out("ok len=%zu lines=%zu h=%016" PRIx64, len, nl, h);
+}
 static void h_case_end(void) { if (R) esl_randomness_Destroy(R); R = NULL; if (R64) esl_rand64_Destroy(R64); R64 = NULL; }
 static uint64_t fnv(uint64_t h, uint64_t x) { return (h ^ x) * 0x100000001b3ULL; }
 
@@ -36,14 +63,35 @@ static int parse_f32_list(const char *s, float **ret) {
 static void h_op(void)
 {
   const char *op = h_words[0];
-  if (!strcmp(op, "new32") || !strcmp(op, "newfast")) {
-    uint32_t seed = (uint32_t) h_argu("seed", 1);
+  if (!strcmp(op, "env")) {           /* the three inputs of choose_arbitrary_seed() for the rest of the case */
+    fake_t = (uint32_t) h_argu("t", 0); fake_p = (uint32_t) h_argu("p", 0); fake_c = (uint32_t) h_argu("c", 0); fake_env = 1;
+    h_out("ok");
+  } else if (!strcmp(op, "new32") || !strcmp(op, "newfast") || !strcmp(op, "newtime")) {
+    uint32_t seed = !strcmp(op, "newtime") ? 0 : (uint32_t) h_argu("seed", 1);
+    if (seed == 0 && !fake_env) { h_out("bad-op"); return; }      /* seed 0 is only driven with a controlled environment */
     if (R) esl_randomness_Destroy(R);
-    R = !strcmp(op, "new32") ? esl_randomness_Create(seed) : esl_randomness_CreateFast(seed);
+    R = !strcmp(op, "new32") ? esl_randomness_Create(seed) : !strcmp(op, "newfast") ? esl_randomness_CreateFast(seed) : esl_randomness_CreateTimeseeded();
     h_out("ok seed=%" PRIu32, esl_randomness_GetSeed(R));
   } else if (!strcmp(op, "init")) {
-    esl_randomness_Init(R, (uint32_t) h_argu("seed", 1));
+    uint32_t seed = (uint32_t) h_argu("seed", 1);
+    if (seed == 0 && !fake_env) { h_out("bad-op"); return; }
+    esl_randomness_Init(R, seed);
     h_out("ok seed=%" PRIu32, esl_randomness_GetSeed(R));
+  } else if (!strcmp(op, "init64")) {
+    uint64_t seed = h_argu("seed", 1);
+    if (seed == 0 && !fake_env) { h_out("bad-op"); return; }
+    esl_rand64_Init(R64, seed);
+    h_out("ok seed=%" PRIu64, esl_rand64_GetSeed(R64));
+  } else if (!strcmp(op, "dump32")) {
+    char *buf = NULL; size_t len = 0; FILE *fp = open_memstream(&buf, &len);
+    esl_randomness_Dump(fp, R); fclose(fp); out_dump(buf, len); free(buf);
+  } else if (!strcmp(op, "dump64")) {
+    char *buf = NULL; size_t len = 0; FILE *fp = open_memstream(&buf, &len);
+    esl_rand64_Dump(fp, R64); fclose(fp); out_dump(buf, len); free(buf);
+  } else if (!strcmp(op, "pos32")) {   /* generator consumption: table position (or LCG state) after the history so far */
+    if (R->type == eslRND_MERSENNE) h_out("ok mti=%d", R->mti); else h_out("ok x=%" PRIu32, R->x);
+  } else if (!strcmp(op, "pos64")) {
+    h_out("ok mti=%d", R64->mti);
   } else if (!strcmp(op, "seedzero32")) {
     ESL_RANDOMNESS *a = esl_randomness_Create(0), *b; uint32_t s = esl_randomness_GetSeed(a); int i, same = 1;
     b = esl_randomness_Create(s);
@@ -90,8 +138,10 @@ static void h_op(void)
     R64->mt[R64->mti + off] = h_argu("w", 0);
     h_out("ok");
   } else if (!strcmp(op, "new64")) {
+    uint64_t seed = h_argu("seed", 1);
+    if (seed == 0 && !fake_env) { h_out("bad-op"); return; }
     if (R64) esl_rand64_Destroy(R64);
-    R64 = esl_rand64_Create(h_argu("seed", 1));
+    R64 = esl_rand64_Create(seed);
     h_out("ok seed=%" PRIu64, esl_rand64_GetSeed(R64));
   } else if (!strcmp(op, "u64")) {
     int64_t k = h_argi("k", 1), i; uint64_t h = 0xcbf29ce484222325ULL; uint64_t x = 0;
